@@ -33,6 +33,7 @@ package meta
 // every state handed out - fresh from the pool or parked in the local slot - runs in the engine's CURRENT mode (the
 // views of one Regex use different states; a stale flag makes them disagree after a late Longest())
 //@   ensures result.pikevm != nil ==> result.pikevm.internalState.Longest == e.longest
+//@   trust ensures result.backtracker != nil ==> stampsOK(result.backtracker)
 // ASSUMED: the per-search PikeVM handed out simulates e's pattern in e's current mode
 //@   trust ensures result.pikevm != nil && (forall h []byte, at int :: pvFoundAt(result.pikevm, h, at) == refFound(e, e.longest, h, at))
 //@   trust ensures e.boundedBacktracker != nil ==> result.backtracker != nil
@@ -137,7 +138,7 @@ package meta
 // themselves are ASSUMED to (trusted contracts below, one per helper)
 //@ func (*Engine).IsMatch
 //@   props C01 C11
-//@   requires leafOK(e) && stratOK(e)
+//@   requires leafOK(e) && stratOK(e) && len(haystack) <= 140737488355328
 //@   modifies @searchState
 //@   ensures result == refFound(e, e.longest, haystack, 0)
 
@@ -463,6 +464,31 @@ package meta
 //@   after call findIndicesNFAAtWithState: ghost viaNFA = true
 //@   ensures old(e.longest) ==> viaNFA
 
+// ---- C02: the bounded-backtracker span dispatch. What is checked: every callee precondition on every path - in
+// particular that the ASCII-only backtracker (btAsciiOnly, ASSUMED of the engine's second instance) is consulted only
+// after the WHOLE searched input was tested to be ASCII - and the range of the reported span. That the engines return
+// the reference span is ASSUMED (leaf contracts).
+//@ spec func btOK(e *Engine) bool = (e.boundedBacktracker != nil ==> wfBT(e.boundedBacktracker) && e.boundedBacktracker.nfa != nil && !btAsciiOnly(e.boundedBacktracker)) && (e.asciiBoundedBacktracker != nil ==> wfBT(e.asciiBoundedBacktracker) && e.asciiBoundedBacktracker.nfa != nil && btAsciiOnly(e.asciiBoundedBacktracker))
+//@ trusted func (*Engine).findIndicesBidirectionalDFALongest
+//@   requires e != nil && e.dfa != nil && e.reverseDFA != nil && 0 <= at && at <= len(haystack)
+//@   modifies @searchState
+//@   ensures result2 ==> at <= result0 && result0 <= result1 && result1 <= len(haystack)
+//@ func (*Engine).findIndicesBoundedBacktrackerAt
+//@   props C02 C07
+//@   requires leafOK(e) && 0 <= at && at <= len(haystack) && len(haystack) <= 140737488355328
+//@   modifies @searchState, e.asciiBoundedBacktracker.internalState.*
+//@   ensures result2 ==> at <= result0 && result0 <= result1 && result1 <= len(haystack)
+//@ func (*Engine).findIndicesBoundedBacktrackerAtWithState
+//@   props C02 C07
+//@   requires leafOK(e) && state != nil && state.pikevm != nil && (e.boundedBacktracker != nil ==> stampsOK(state.backtracker)) && 0 <= at && at <= len(haystack) && len(haystack) <= 140737488355328
+//@   modifies @searchState, e.asciiBoundedBacktracker.internalState.*
+//@   ensures result2 ==> at <= result0 && result0 <= result1 && result1 <= len(haystack)
+//@ func (*Engine).findIndicesBoundedBacktracker
+//@   props C02 C07
+//@   requires leafOK(e) && len(haystack) <= 140737488355328
+//@   modifies @searchState
+//@   ensures result2 ==> 0 <= result0 && result0 <= result1 && result1 <= len(haystack)
+
 // ---- C01: the boolean dispatch layer, relative to ASSUMED leaf contracts (each engine decides the reference: pvFoundAt,
 // btFound, named by uninterpreted functions and linked to the engine's reference by leafOK) and the ASSUMED prefilter link
 // (every match starts at a prefilter candidate: C17 for the engine's literal set) ----
@@ -472,7 +498,7 @@ package meta
 //@ spec func dfaBoolLink(e *Engine) bool = e.dfa != nil ==> (forall h []byte :: dfaHasMatch(e.dfa, h) == refFound(e, false, h, 0))
 // a complete prefilter's candidate is a match by itself (C17: "a literal marked complete is by itself an entire match")
 //@ spec func pfCompleteLink(e *Engine) bool = (e.prefilter != nil && pfIsComplete(e.prefilter)) ==> (forall l bool, h []byte, i int :: pfOcc(e.prefilter, h, i) ==> refFound(e, l, h, 0))
-//@ spec func leafOK(e *Engine) bool = engineOK(e) && pfLink(e) && btLink(e) && dfaBoolLink(e) && pfCompleteLink(e)
+//@ spec func leafOK(e *Engine) bool = engineOK(e) && pfLink(e) && btLink(e) && dfaBoolLink(e) && pfCompleteLink(e) && btOK(e) && e.pikevm != nil
 //@ func (*Engine).isMatchNFA
 //@   props C01 C11
 //@   opt safety=off
@@ -522,10 +548,13 @@ package meta
 //@   requires leafOK(e)
 //@   modifies @searchState
 //@   ensures result == refFound(e, e.longest, haystack, 0)
-//@ trusted func (*Engine).isMatchBoundedBacktracker
-//@   requires leafOK(e)
-//@   modifies @searchState
-//@   ensures result == refFound(e, e.longest, haystack, 0)
+// checked: every callee precondition (the ASCII gate of the ASCII-only backtracker among them); the answer itself
+// stays ASSUMED (first-byte / suffix rejection sets and both backtrackers decide the reference)
+//@ func (*Engine).isMatchBoundedBacktracker
+//@   props C01 C07
+//@   requires leafOK(e) && len(haystack) <= 140737488355328
+//@   modifies @searchState, e.asciiBoundedBacktracker.internalState.*
+//@   trust ensures result == refFound(e, e.longest, haystack, 0)
 //@ trusted func (*Engine).isMatchCharClassSearcher
 //@   requires leafOK(e)
 //@   modifies @searchState
